@@ -50,6 +50,108 @@ func c13lease(cw *caseWriter, cfg []srv, ds []int, L time.Duration) {
 	}
 }
 
+// component 1303: the minCheckInterval floor.  One voter's last contact lies `margin` (a few ms) inside the lease, so
+// lease - maxDiff is below the 10 ms floor; the other peers' contacts are fresher (or beyond the lease).  The next interval is
+// reported in whole multiples of minCheckInterval: exactly 1 at the floor whatever the clock latency (below the margin), 0 without
+// the floor.  An attempt whose clock readings may lie further apart than half the margin is repeated on a fresh server.
+func c13floor(cw *caseWriter, cfg []srv, floorPeer int, margin time.Duration, ds []int, L time.Duration) {
+	for attempt := 0; attempt < 50; attempt++ {
+		logs := NewMapLogStore(nil)
+		logs.StoreLogs([]*raft.Log{{Index: 1, Term: 1, Type: raft.LogConfiguration, Data: raft.EncodeConfiguration(mkConfig(cfg))}})
+		n, err := newNode(nodeOpts{id: 1, timeouts: L}, logs, nil, nil)
+		if err != nil {
+			panic(err)
+		}
+		n.r.VerifSetState(raft.Leader)
+		n.r.VerifSetupLeaderState()
+		nowNs := uint64(1000000000000)
+		in := encSrvs(cfg)
+		in = append(in, 1, uint64(L.Nanoseconds()), nowNs)
+		type pc struct {
+			s srv
+			d time.Duration
+		}
+		var peers []pc
+		var contacts []uint64
+		k := 0
+		for _, s := range cfg {
+			if s.id == 1 {
+				continue
+			}
+			d := time.Duration(ds[k%len(ds)]) * L / 10
+			if k == floorPeer {
+				d = L - margin
+			}
+			k++
+			peers = append(peers, pc{s, d})
+			contacts = append(contacts, s.id, nowNs-uint64(d.Nanoseconds()))
+		}
+		in = append(in, uint64(len(contacts)/2))
+		in = append(in, contacts...)
+		base := time.Now()
+		for _, p := range peers {
+			n.r.VerifAddReplState(raft.Server{Suffrage: raft.ServerSuffrage(p.s.suff), ID: idStr(p.s.id), Address: addrStr(p.s.addr)}, base.Add(-p.d))
+		}
+		md := n.r.VerifCheckLeaderLease()
+		elapsed := time.Since(base)
+		sd := n.r.State() != raft.Leader
+		n.shutdown()
+		if elapsed > margin/2 {
+			cw.stat("c13_floor_retries", 1)
+			continue
+		}
+		ni := L - md
+		if ni < raft.VerifMinCheckInterval {
+			ni = raft.VerifMinCheckInterval
+		}
+		b := func(d time.Duration) uint64 { return uint64((d + L/20) / (L / 10)) }
+		mult := uint64(ni / raft.VerifMinCheckInterval)
+		if mult > 2 {
+			mult = 2 // well above the floor (the floor peer is not a voter, or out of the lease): the exact multiple depends on the clock latency
+		}
+		cw.emit(cw.tag("f"), 1303, in, []uint64{b2u(sd), b(md), mult}, true)
+		return
+	}
+	cw.stat("c13_floor_abandoned", 1)
+}
+
+func runC13floor(cw *caseWriter, tier string, r *rng, L time.Duration) {
+	cfgs := [][]srv{
+		{{0, 1, 1}, {0, 2, 2}},
+		{{0, 1, 1}, {0, 2, 2}, {0, 3, 3}},
+		{{0, 1, 1}, {0, 2, 2}, {0, 3, 3}, {1, 4, 4}},
+		{{0, 1, 1}, {1, 2, 2}, {0, 3, 3}, {2, 4, 4}, {0, 5, 5}},
+		{{0, 1, 1}, {0, 2, 2}, {0, 3, 3}, {0, 4, 4}, {0, 5, 5}},
+	}
+	grid := []int{0, 4, 8, 30}
+	n := 0
+	for _, cfg := range cfgs {
+		peers := len(cfg) - 1
+		for fp := 0; fp < peers; fp++ {
+			for _, margin := range []time.Duration{8 * time.Millisecond, 5 * time.Millisecond} {
+				total := 1
+				for i := 0; i < peers; i++ {
+					total *= len(grid)
+				}
+				for x := 0; x < total; x++ {
+					if total > 16 && tier == "quick" && r.intn(total/8) != 0 {
+						continue
+					}
+					ds := make([]int, peers)
+					y := x
+					for i := 0; i < peers; i++ {
+						ds[i] = grid[y%len(grid)]
+						y /= len(grid)
+					}
+					c13floor(cw, cfg, fp, margin, ds, L)
+					n++
+				}
+			}
+		}
+	}
+	cw.stat("c13_floor_cases", n)
+}
+
 func runC13(cw *caseWriter, tier string, seed uint64) {
 	r := &rng{s: seed}
 	L := 2 * time.Second                       // long enough that scheduling jitter of a loaded machine (tens of ms) cannot move a bucket
@@ -88,6 +190,7 @@ func runC13(cw *caseWriter, tier string, seed uint64) {
 		}
 	}
 	cw.stat("c13_lease_cases", n)
+	runC13floor(cw, tier, r, L)
 	// ValidateConfig timing part
 	vals := []time.Duration{time.Millisecond, 4 * time.Millisecond, 5 * time.Millisecond, 10 * time.Millisecond, 100 * time.Millisecond, time.Second}
 	m := 0
